@@ -33,7 +33,8 @@ PORT = 35683          # default; main() replaces it by a UDP port that is free r
 def run_driver(exe, lines, scratch, timeout=1800):
     os.makedirs(scratch, exist_ok=True)
     outs, crashes = vlib.run_lines_robust(exe, lines, timeout=timeout,
-                                          env={"VERIF_PS_DIR": scratch})
+                                          env={"VERIF_PS_DIR": scratch,
+                                               "ASAN_OPTIONS": "detect_leaks=0"})
     shutil.rmtree(scratch, ignore_errors=True)
     return outs, crashes
 
@@ -210,6 +211,25 @@ def main(run):
                               "case: %s\n\n%s\n\nimpl:\n%s\n\nmodel:\n%s\n" %
                               (ln, d, co[:20000], mo[:20000]),
                               tag="tie%d" % ntie, no_input=(nbad == 0))
+    # thorough: the same cases again with libcoap and the driver under ASan + UBSan (memory
+    # errors in the persistence paths kill the server child; the outputs must be the same)
+    if not quick and not getattr(run, "replay", None):
+        drv_a = vlib.build_driver("h_persist", ["h_persist.c"], variant="asan", wraps=WRAPS)
+        sub = [i for i, k in enumerate(kinds) if k == "corpus"] + \
+              [i for i, k in enumerate(kinds) if k != "corpus"][:40]
+        oa, _ = run_parallel(drv_a, [lines[i] for i in sub], scratch_root + "-asan", workers)
+        nsan = 0
+        for j, i in enumerate(sub):
+            if (oa[j] or "") != (oc[i] or ""):
+                nsan += 1
+                if nsan <= 2:
+                    run.violation("sanitizer build behaves differently / server child died (%s): %s"
+                                  % (kinds[i], first_diff(oa[j] or "<none>", oc[i] or "<none>")[:300]),
+                                  "case: %s\n\nasan build:\n%s\n\nplain build:\n%s\n"
+                                  % (lines[i], (oa[j] or "")[:20000], (oc[i] or "")[:20000]),
+                                  tag="asan%d" % nsan)
+        run.cov["sanitizer_cases"] = len(sub)
+        run.cov["sanitizer_differences"] = nsan
     run.cov["oracle_failures"] = nbad
     run.cov["disagreements"] = ntie
     shutil.rmtree(scratch_root, ignore_errors=True)
